@@ -15,6 +15,8 @@ pub struct IntersectionMut<'a, P, L, R> {
     pub(super) table_l: &'a Table<P, L>,
     pub(super) table_r: &'a Table<P, R>,
     pub(super) nodes: Vec<IntersectionIndex>,
+    // The iterator hands out `&'a mut L` and `&'a mut R`; make the auto traits follow.
+    marker: std::marker::PhantomData<(&'a mut L, &'a mut R)>,
 }
 
 impl<'a, P, L, R> IntersectionMut<'a, P, L, R> {
@@ -31,6 +33,7 @@ impl<'a, P, L, R> IntersectionMut<'a, P, L, R> {
             table_l,
             table_r,
             nodes,
+            marker: std::marker::PhantomData,
         }
     }
 }
